@@ -12,6 +12,7 @@ package main
 import (
 	"flag"
 	"fmt"
+	"math"
 	"os"
 	"path/filepath"
 	"regexp"
@@ -84,6 +85,8 @@ type cellSpec struct {
 	border           float64
 	words            []int
 	height           string
+	bw               [4]float64 // per-side border widths (top right bottom left), used when hasBW
+	hasBW            bool
 }
 
 type rowSpec struct {
@@ -107,6 +110,7 @@ type tableSpec struct {
 	groups   []groupSpec
 	tags     []string
 	pageCSS  string // "" = one tall page of pageWidth; otherwise the @page rules of a paged document
+	tborder  float64 // border of the table element itself (px, solid), 0 = none
 }
 
 func half(r *vlib.Rng, lo, hi int) float64 { return float64(r.Range(2*lo, 2*hi)) / 2 }
@@ -459,6 +463,228 @@ func genPagedTable(r *vlib.Rng) tableSpec {
 	return t
 }
 
+
+// The collapsed-borders stream: auto layout of a `border-collapse: collapse` table whose cells have a border width of
+// their own on EVERY SIDE (so that the used left and right border of a cell differ: the collapsed edge between two cells
+// is the widest of the two candidates, half of it on each side), many empty / narrow cells, so that a column is as wide
+// as the outer min-content width of ONE cell: the predicates "no cell has a negative used width" and "a cell is never
+// narrower than the min-content width of its content" (CCells, codes 20 / 21) then say whether the preferred widths
+// (preferred.go marginWidth / the cell offsets of the collapsing model) counted the borders tableLayout subtracts.
+func genCollapseTable(r *vlib.Rng) tableSpec {
+	t := tableSpec{collapse: true}
+	switch r.Intn(6) {
+	case 0:
+		t.width = fmt.Sprintf("%dpx", r.Range(0, 30)*10)
+	case 1:
+		t.width = fmt.Sprintf("%dpx", r.Range(30, 90)*10)
+	}
+	if r.Chance(1, 3) {
+		t.bsx, t.bsy = half(r, 0, 8), half(r, 0, 8) // ignored in the collapsing model
+	}
+	if r.Chance(1, 3) {
+		t.tborder = float64(vlib.Pick(r, []int{1, 2, 4, 8, 16}))
+	}
+	ncols := r.Range(1, 4)
+	side := func() float64 { return float64(vlib.Pick(r, []int{0, 0, 1, 2, 3, 4, 6, 10, 16, 24})) }
+	order := []string{"tbody"}
+	if r.Chance(1, 5) {
+		order = []string{"thead", "tbody"}
+	}
+	for _, tag := range order {
+		gs := groupSpec{tag: tag}
+		for i, rows := 0, r.Range(1, 3); i < rows; i++ {
+			rs := rowSpec{}
+			for j := 0; j < ncols; j++ {
+				c := cellSpec{colspan: 1, rowspan: 1}
+				if r.Chance(1, 8) {
+					c.colspan = 2
+				}
+				if r.Chance(1, 10) {
+					c.rowspan = 2
+				}
+				switch r.Intn(4) {
+				case 0: // uniform border
+					c.border = float64(r.Range(0, 6))
+				case 1: // no border of its own: takes what the neighbours give
+				default:
+					c.hasBW = true
+					c.bw = [4]float64{side(), side(), side(), side()}
+				}
+				if !r.Chance(1, 3) {
+					for k, n := 0, r.Range(1, 2); k < n; k++ {
+						c.words = append(c.words, r.Range(1, 4))
+					}
+				}
+				if r.Chance(1, 4) {
+					c.pad = [4]float64{half(r, 0, 4), half(r, 0, 4), half(r, 0, 4), half(r, 0, 4)}
+				}
+				if r.Chance(1, 8) {
+					c.width = fmt.Sprintf("%dpx", r.Range(0, 12)*5)
+				}
+				rs.cells = append(rs.cells, c)
+			}
+			if r.Chance(1, 8) && len(rs.cells) > 1 {
+				rs.cells = rs.cells[:len(rs.cells)-1]
+			}
+			gs.rows = append(gs.rows, rs)
+		}
+		t.groups = append(t.groups, gs)
+	}
+	t.tags = append(t.tags, "gen:collapse-stream", "collapse")
+	if t.width == "" {
+		t.tags = append(t.tags, "width:auto")
+	} else {
+		t.tags = append(t.tags, "width:px")
+	}
+	return t
+}
+
+func pct(v float64) string {
+	return strconv.FormatFloat(math.Round(v*100)/100, 'f', -1, 64) + "%"
+}
+
+// The percentage-span stream: auto layout; a contiguous range of 1-3 columns with percentage widths whose SUM is drawn
+// around the 100 % boundary (exactly 100, 100.01 - clamped to 100 by the preferred widths -, 99.99, 90, 110, 150), the
+// other columns without percentage (px width on the cells, nothing, empty); a row with a colspan cell over the percentage
+// range (or one column more / less) whose content is wider than its columns, so that the colspan call of
+// distributeExcessWidth inside tableAndColumnsPreferredWidths reaches its percentage group with percentageWidth on both
+// sides of / exactly at 100 and a non-zero fixed width; a specified table width above the max-content width in half of
+// the tables, so that the top-level call does the same.
+func genPctSpanTable(r *vlib.Rng) tableSpec {
+	t := tableSpec{}
+	k := r.Range(1, 3)         // percentage columns
+	before := r.Range(0, 1)    // other columns before the range
+	after := r.Range(0, 2)     // ... and after it
+	if before+after == 0 && r.Chance(3, 4) {
+		after = 1
+	}
+	ncols := before + k + after
+	total := vlib.Pick(r, []float64{100, 100, 100, 100.01, 99.99, 90, 110, 150})
+	ps := make([]float64, k)
+	left := total
+	for j := 0; j < k-1; j++ {
+		ps[j] = vlib.Pick(r, []float64{10, 20, 25, 30, 50, 12.5, 33.33})
+		if ps[j] >= left {
+			ps[j] = math.Round(left*50) / 100
+		}
+		left -= ps[j]
+	}
+	ps[k-1] = left
+	otherKind := make([]int, ncols) // 0 px width on the cells, 1 nothing, 2 empty cells
+	for j := range otherKind {
+		otherKind[j] = vlib.Pick(r, []int{0, 0, 1, 1, 1, 2})
+	}
+	single := func(j int, first bool) cellSpec {
+		c := cellSpec{colspan: 1, rowspan: 1}
+		if j >= before && j < before+k {
+			if first || r.Chance(1, 3) {
+				c.width = pct(ps[j-before])
+			}
+			if r.Chance(2, 3) {
+				c.words = []int{r.Range(1, 4)}
+			}
+			return c
+		}
+		switch otherKind[j] {
+		case 0:
+			c.width = fmt.Sprintf("%dpx", vlib.Pick(r, []int{10, 20, 40, 50, 80}))
+			c.words = []int{r.Range(1, 4)}
+		case 1:
+			for i, n := 0, r.Range(1, 2); i < n; i++ {
+				c.words = append(c.words, r.Range(1, 5))
+			}
+		}
+		if r.Chance(1, 4) {
+			c.pad = [4]float64{half(r, 0, 4), half(r, 0, 4), half(r, 0, 4), half(r, 0, 4)}
+		}
+		return c
+	}
+	gs := groupSpec{tag: "tbody"}
+	row0 := rowSpec{}
+	for j := 0; j < ncols; j++ {
+		row0.cells = append(row0.cells, single(j, true))
+	}
+	// the row with the spanning cell
+	a, b := before, before+k // [a, b) = columns of the spanning cell
+	switch r.Intn(6) {
+	case 0:
+		if a > 0 {
+			a--
+		}
+	case 1:
+		if b < ncols {
+			b++
+		}
+	case 2:
+		if b-a > 1 {
+			b--
+		}
+	}
+	row1 := rowSpec{}
+	for j := 0; j < a; j++ {
+		row1.cells = append(row1.cells, single(j, false))
+	}
+	sp := cellSpec{colspan: b - a, rowspan: 1}
+	for i, n := 0, r.Range(1, 2); i < n; i++ {
+		sp.words = append(sp.words, vlib.Pick(r, []int{2, 6, 10, 16, 24}))
+	}
+	if r.Chance(1, 4) {
+		sp.width = fmt.Sprintf("%dpx", r.Range(5, 40)*10)
+	}
+	row1.cells = append(row1.cells, sp)
+	for j := b; j < ncols; j++ {
+		row1.cells = append(row1.cells, single(j, false))
+	}
+	gs.rows = []rowSpec{row0, row1}
+	if r.Chance(1, 2) {
+		gs.rows = []rowSpec{row1, row0}
+	}
+	if r.Chance(1, 3) {
+		row2 := rowSpec{}
+		for j := 0; j < ncols; j++ {
+			row2.cells = append(row2.cells, single(j, false))
+		}
+		gs.rows = append(gs.rows, row2)
+	}
+	t.groups = []groupSpec{gs}
+	switch r.Intn(4) {
+	case 0, 1:
+		t.width = ""
+	case 2:
+		t.width = fmt.Sprintf("%dpx", r.Range(30, 120)*10)
+	default:
+		t.width = fmt.Sprintf("%dpx", r.Range(0, 40)*10)
+	}
+	if r.Chance(2, 3) {
+		t.bsx, t.bsy = half(r, 0, 8), half(r, 0, 8)
+	}
+	t.tags = append(t.tags, "gen:percentage-span-stream", "gen:percentage-sum="+pct(total))
+	if t.width == "" {
+		t.tags = append(t.tags, "width:auto")
+	} else {
+		t.tags = append(t.tags, "width:px")
+	}
+	return t
+}
+
+// A NaN or an infinite width / position / size anywhere in the laid-out table (or in what the width algorithms
+// returned for it) cannot be written as a Q: the table is reported (Check/C13.v code 22) instead of being skipped.
+func nonFiniteCase(kind, src string, tags []string, site int, what string, vals []Fl) vlib.Case {
+	bad := 0
+	strs := make([]string, len(vals))
+	for i, v := range vals {
+		if !finite(v) {
+			bad++
+		}
+		strs[i] = fmt.Sprint(v)
+	}
+	tags = append(append([]string{}, tags...), "non-finite:"+what)
+	sort.Strings(tags)
+	return vlib.Case{Kind: kind + "-nonfinite", Tags: tags, Nontrivial: true,
+		Coq:  fmt.Sprintf("CNonFinite %d %d %d", site, len(vals), bad),
+		Desc: map[string]interface{}{"html": src, "where": what, "values": strs}}
+}
+
 func (t tableSpec) html() string {
 	var sb strings.Builder
 	sb.WriteString(`<html><head><style>`)
@@ -480,6 +706,9 @@ func (t tableSpec) html() string {
 	if t.collapse {
 		style += "border-collapse:collapse;"
 	}
+	if t.tborder > 0 {
+		style += fmt.Sprintf("border:%gpx solid black;", t.tborder)
+	}
 	fmt.Fprintf(&sb, `<table style="%s">`, style)
 	if t.caption != "" {
 		fmt.Fprintf(&sb, `<caption style="caption-side:%s">xx xx</caption>`, t.caption)
@@ -495,7 +724,9 @@ func (t tableSpec) html() string {
 			fmt.Fprintf(&sb, `<tr style="%s">`, st)
 			for _, c := range r.cells {
 				st := fmt.Sprintf("padding:%gpx %gpx %gpx %gpx;", c.pad[0], c.pad[1], c.pad[2], c.pad[3])
-				if c.border > 0 {
+				if c.hasBW {
+					st += fmt.Sprintf("border-style:solid;border-color:black;border-width:%gpx %gpx %gpx %gpx;", c.bw[0], c.bw[1], c.bw[2], c.bw[3])
+				} else if c.border > 0 {
 					st += fmt.Sprintf("border:%gpx solid black;", c.border)
 				}
 				if c.width != "" {
@@ -533,6 +764,7 @@ func (t tableSpec) html() string {
 type sCell struct {
 	colspanAttr, rowspanAttr int
 	width                    string // css width of the cell, "" = auto
+	minGlyphs                int    // longest word of the cell's content in glyphs (generated documents; 0 = unknown / empty)
 }
 type sGroup struct {
 	kind int // 0 tbody, 1 thead, 2 tfoot
@@ -560,7 +792,13 @@ func (t tableSpec) structure() []sGroup {
 		for _, r := range g.rows {
 			row := []sCell{}
 			for _, c := range r.cells {
-				row = append(row, sCell{c.colspan, c.rowspan, c.width})
+				mg := 0
+				for _, w := range c.words {
+					if w > mg {
+						mg = w
+					}
+				}
+				row = append(row, sCell{c.colspan, c.rowspan, c.width, mg})
 			}
 			sg.rows = append(sg.rows, row)
 		}
@@ -721,7 +959,7 @@ func structureFromHTML(src string) (gsOut []sGroup, colW []string, okOut bool) {
 				if !ok1 || !ok2 {
 					return nil, nil, false
 				}
-				row = append(row, sCell{cs, rs, styleWidth(c)})
+				row = append(row, sCell{cs, rs, styleWidth(c), 0})
 			}
 			sg.rows = append(sg.rows, row)
 		}
@@ -1047,7 +1285,7 @@ func fixedCase(src string, tags []string, kind string, st tStruct, w *vlib.Write
 		outCW = append(outCW, w)
 	}
 	if !finite(append(outCW, outW, w0)...) {
-		return vlib.Case{}, false
+		return nonFiniteCase(kind, src, tags, 6, "fixedTableLayout: column widths / table width", append(outCW, outW, w0)), true
 	}
 	coq := fmt.Sprintf("CFixed %s [%s] [%s] %s %d %s %s", q(w0), strings.Join(cols, "; "), strings.Join(cells, "; "), q(bsx), status, qs(outCW), q(outW))
 	return vlib.Case{Kind: kind, Coq: coq, Tags: tags, Nontrivial: len(outCW) > 1,
@@ -1145,8 +1383,17 @@ func layoutCases(src string, baseTags []string, kind string, st tStruct, w *vlib
 	all := append([]Fl{x0, y0, tableW}, widths...)
 	all = append(all, tb.ColumnPositions...)
 	if !finite(all...) {
+		w.Add(nonFiniteCase(kind, src, baseTags, 1, "laid-out table: content box x / y, table width, ColumnWidths, ColumnPositions", all))
 		return
 	}
+	// min-content width of every cell's content, from the generator's specification of the document
+	var ordered []sGroup
+	if hasStruct {
+		ordered = orderGroups(gs)
+	}
+	var cellTerms []string
+	var descC strings.Builder
+	var cellVals []Fl
 	var descH, descV strings.Builder
 	var hrows, vgroups []string
 	okAll := true
@@ -1182,9 +1429,16 @@ func layoutCases(src string, baseTags []string, kind string, st tStruct, w *vlib
 			for ci, c := range rf.Children {
 				f := c.Box()
 				wv, _ := mf(f.Width)
+				cellVals = append(cellVals, f.PositionX, wv, f.BorderWidth(), f.PositionY, f.BorderHeight())
 				if !finite(f.PositionX, wv, f.BorderWidth(), f.PositionY, f.BorderHeight()) {
 					okAll = false
 				}
+				var mc Fl
+				if gi < len(ordered) && ri < len(ordered[gi].rows) && ci < len(ordered[gi].rows[ri]) {
+					mc = Fl(16 * ordered[gi].rows[ri][ci].minGlyphs) // body { font: 16px Ahem }: every glyph advances 16px
+				}
+				cellTerms = append(cellTerms, fmt.Sprintf("(CCell %s %s)", q(wv), q(mc)))
+				fmt.Fprintf(&descC, "g%d r%d c%d content width=%v min-content of the content=%v (padding %v %v, borders %v %v)\n", gi, ri, ci, wv, mc, f.PaddingLeft.V(), f.PaddingRight.V(), f.BorderLeftWidth, f.BorderRightWidth)
 				hobs = append(hobs, fmt.Sprintf("(HO %s %s %s %s)", vlib.Z(f.Colspan), q(f.PositionX), q(wv), q(f.BorderWidth())))
 				pbStyle := f.Style.GetPaddingBottom().Value
 				natural := f.BorderHeight() - (f.PaddingBottom.V() - pbStyle)
@@ -1208,6 +1462,7 @@ func layoutCases(src string, baseTags []string, kind string, st tStruct, w *vlib
 		fmt.Fprintf(&descV, "g%d y=%v h=%v\n", gi, gf.PositionY, gh)
 	}
 	if !okAll {
+		w.Add(nonFiniteCase(kind, src, baseTags, 2, "laid-out cells: PositionX, Width, border-box width, PositionY, border-box height", cellVals))
 		return
 	}
 	tags := append([]string{}, baseTags...)
@@ -1282,6 +1537,16 @@ func layoutCases(src string, baseTags []string, kind string, st tStruct, w *vlib
 	w.Add(vlib.Case{Kind: kind + "-widths", Tags: tags, Nontrivial: len(widths) > 1,
 		Coq:  fmt.Sprintf("CWidths %d %d %s %s %s %s %s", fk, norig, q(tableW), q(spec), vlib.Bool(hasSpec), q(bsx), qs(widths)),
 		Desc: da})
+	// no cell has a negative used width; auto layout: no cell is narrower than the min-content width of its content
+	if len(cellTerms) > 0 {
+		dc := map[string]interface{}{"cells": descC.String(), "fixed": fixedUsed}
+		for k, v := range common {
+			dc[k] = v
+		}
+		w.Add(vlib.Case{Kind: kind + "-cells", Tags: tags, Nontrivial: len(cellTerms) > 1,
+			Coq:  fmt.Sprintf("CCells %s [%s]", vlib.Bool(!fixedUsed), strings.Join(cellTerms, "; ")),
+			Desc: dc})
+	}
 }
 
 
@@ -1336,6 +1601,7 @@ func pagedCases(src string, baseTags []string, kind string, st tStruct, w *vlib.
 			all := append([]Fl{x0}, tb.ColumnWidths...)
 			all = append(all, tb.ColumnPositions...)
 			if !finite(all...) {
+				w.Add(nonFiniteCase(kind, src, baseTags, 3, "table fragment: content box x, ColumnWidths, ColumnPositions", all))
 				return
 			}
 			fmt.Fprintf(&desc, "page %d (content box x=%v w=%v): table x0=%v widths=%v positions=%v\n", pi, page.ContentBoxX(), page.Width, x0, tb.ColumnWidths, tb.ColumnPositions)
@@ -1347,6 +1613,7 @@ func pagedCases(src string, baseTags []string, kind string, st tStruct, w *vlib.
 						f := c.Box()
 						wv, _ := mf(f.Width)
 						if !finite(f.PositionX, wv, f.BorderWidth()) {
+							w.Add(nonFiniteCase(kind, src, baseTags, 4, "cell of a table fragment: PositionX, Width, border-box width", []Fl{f.PositionX, wv, f.BorderWidth()}))
 							return
 						}
 						hin = append(hin, fmt.Sprintf("(HC %s %s %s %s %s %s)", vlib.Z(f.GridX), vlib.Z(f.Colspan), q(f.PaddingLeft.V()), q(f.PaddingRight.V()), q(f.BorderLeftWidth), q(f.BorderRightWidth)))
@@ -1401,7 +1668,7 @@ func autoCase(src string, tags []string, kind string) (vlib.Case, bool) {
 	all := []Fl{io.WidthIn, io.Available, io.TableMin, io.TableMax, io.TotalSpacing, io.WidthOut}
 	all = append(append(append(append(all, io.Mins...), io.Maxs...), io.Percentages...), io.ColumnWidths...)
 	if !finite(all...) {
-		return vlib.Case{}, false
+		return nonFiniteCase(kind, src, tags, 5, "preferred widths (table min / max, column min / max / percentages, spacing) and autoTableLayout's column widths / table width", all), true
 	}
 	width := "ON"
 	if io.HasWidth {
@@ -1468,7 +1735,19 @@ func main() {
 	}
 	for i := 0; i < *n; i++ {
 		r := rng.Fork()
-		if i%3 == 0 {
+		if i%15 == 12 || i%15 == 14 {
+			// collapsed borders with per-side widths / percentage columns around 100 % under a colspan
+			var t tableSpec
+			if (i/15+i%15/14)%2 == 0 {
+				t = genCollapseTable(r)
+			} else {
+				t = genPctSpanTable(r)
+			}
+			layoutCases(t.html(), t.tags, "layout", t.tstruct(), w)
+			if c, ok := autoCase(t.html(), t.tags, "layout"); ok {
+				w.Add(c)
+			}
+		} else if i%3 == 0 {
 			t := genTable(r, true)
 			if c, ok := fixedCase(t.html(), t.tags, "fixed", t.tstruct(), w); ok {
 				w.Add(c)
